@@ -257,5 +257,16 @@ Definition wss_certificate_refused : attempt := AFail true false.
    down or not up yet: a failed attempt that is waited out, like the cut connection it is the
    polite form of.  (An ELEMENT other than the awaited one stays permanent.) *)
 Definition stream_ended_by_server : attempt := AFail false false.
+(* The connection of a reconnection attempt ends at a step where the Session object exists and
+   nothing has been said about the state it carries: before the server's stream header, after
+   <auth/>, after <success/>, and -- the step that matters for "resumed when possible" -- after
+   the <resume/> request has been written and before (or in the middle of) the server's answer
+   to it.  The server has neither confirmed nor refused the session: the attempt is waited out
+   and the state held is the one held before (Model/Session.v step_resume, [conn_lost]), so
+   that the next attempt presents it again.  Contrast: an ANSWER other than <resumed/> for the
+   id presented (<failed/>, another element) is a refusal, after which the state is gone even
+   if the connection is cut right afterwards -- [AFail false true]. *)
+Definition cut_awaiting_resume_answer : attempt := AFail false false.
+Definition cut_after_resume_refused : attempt := AFail false true.
 Definition attempt_permanent (a : attempt) : bool :=
   match a with AFail p _ => p | _ => false end.
